@@ -57,26 +57,30 @@ Fixpoint lex (fuel : nat) (l : text) : option text :=
   | S f =>
       match l with
       | [] => Some []
-      | 92 :: e :: r =>
-          if is_oct e then
+      | c :: r =>
+          if N.eqb c 92 then
             match r with
-            | o2 :: r2 => if is_oct o2 then
-                            match r2 with
-                            | o3 :: r3 => if is_oct o3 then option_map (cons ((e - 48) * 64 + (o2 - 48) * 8 + (o3 - 48))) (lex f r3)
-                                          else option_map (cons ((e - 48) * 8 + (o2 - 48))) (lex f r2)
-                            | [] => Some [(e - 48) * 8 + (o2 - 48)]
-                            end
-                          else option_map (cons (e - 48)) (lex f r)
-            | [] => Some [e - 48]
+            | [] => None
+            | e :: r1 =>
+                if is_oct e then
+                  match r1 with
+                  | o2 :: r2 => if is_oct o2 then
+                                  match r2 with
+                                  | o3 :: r3 => if is_oct o3 then option_map (cons ((e - 48) * 64 + (o2 - 48) * 8 + (o3 - 48))) (lex f r3)
+                                                else option_map (cons ((e - 48) * 8 + (o2 - 48))) (lex f r2)
+                                  | [] => Some [(e - 48) * 8 + (o2 - 48)]
+                                  end
+                                else option_map (cons (e - 48)) (lex f r1)
+                  | [] => Some [e - 48]
+                  end
+                else if N.eqb e 117 then match hexn 4%nat r1 0 with Some (v, r') => if ucn_ok v then option_map (cons v) (lex f r') else None | None => None end
+                else if N.eqb e 85 then match hexn 8%nat r1 0 with Some (v, r') => if ucn_ok v then option_map (cons v) (lex f r') else None | None => None end
+                else if N.eqb e 110 then option_map (cons 10) (lex f r1) else if N.eqb e 116 then option_map (cons 9) (lex f r1)
+                else if N.eqb e 114 then option_map (cons 13) (lex f r1) else if N.eqb e 34 then option_map (cons 34) (lex f r1)
+                else if N.eqb e 92 then option_map (cons 92) (lex f r1) else if N.eqb e 39 then option_map (cons 39) (lex f r1)
+                else None
             end
-          else if N.eqb e 117 then match hexn 4%nat r 0 with Some (v, r') => if ucn_ok v then option_map (cons v) (lex f r') else None | None => None end
-          else if N.eqb e 85 then match hexn 8%nat r 0 with Some (v, r') => if ucn_ok v then option_map (cons v) (lex f r') else None | None => None end
-          else if N.eqb e 110 then option_map (cons 10) (lex f r) else if N.eqb e 116 then option_map (cons 9) (lex f r)
-          else if N.eqb e 114 then option_map (cons 13) (lex f r) else if N.eqb e 34 then option_map (cons 34) (lex f r)
-          else if N.eqb e 92 then option_map (cons 92) (lex f r) else if N.eqb e 39 then option_map (cons 39) (lex f r)
-          else None
-      | [92] => None
-      | c :: r => if N.eqb c 34 || N.eqb c 10 then None else option_map (cons c) (lex f r)
+          else if N.eqb c 34 || N.eqb c 10 then None else option_map (cons c) (lex f r)
       end
   end.
 Definition read_literal (l : text) : option text := lex (S (List.length l)) l.
